@@ -106,6 +106,8 @@ def _build(case):
     # lengths are (deterministic pattern derived from the node index; 1.0 - ete3's default - for every third node)
     for i, node in enumerate(nodes):
         node.dist = (1.0, 0.0, 2.5)[i % 3] if case.get("_lengths", True) else 1.0
+        # labels are data too, and need not be unique: queries are about node objects
+        node.name = ("a", "b", "", "a", "c")[(i * 7 + len(nodes)) % 5]
     return nodes, parent
 
 
